@@ -754,3 +754,36 @@ def as_comprehension(scope: Scope, name: str) -> Optional[ast.ListComp]:
         return None
     comp = ast.ListComp(elt=call.args[0], generators=[ast.comprehension(target=lp.target, iter=lp.iter, ifs=ifs, is_async=0)])
     return ast.copy_location(comp, lp)
+
+
+def term_at(parents, scope: Scope, expr: ast.AST, at_stmt: ast.stmt, keep=()) -> tuple:
+    """Term of `expr` as evaluated just before `at_stmt`: like term_of, but locals that are bound on several paths
+    in the statements preceding at_stmt IN ITS OWN BLOCK (e.g. `if c: n = 0 else: n = a - b`) are replaced by the
+    summarised value of that block prefix (an if-expression), instead of being left as uninterpreted symbols."""
+    from . import conform as _cf
+    par = parents.parent(at_stmt)
+    blk = None
+    for field in ("body", "orelse", "finalbody"):
+        b = getattr(par, field, None)
+        if isinstance(b, list) and any(at_stmt is s for s in b):
+            blk = b
+    e = scope.resolve(expr, keep=tuple(keep))
+    if blk is None:
+        return tm.translate(e)
+    idx = [i for i, s in enumerate(blk) if s is at_stmt][0]
+    prefix = blk[:idx]
+    bound_in_prefix = {n.id for s in prefix for n in ast.walk(s) if isinstance(n, ast.Name) and isinstance(n.ctx, ast.Store)}
+    need = [n for n in sorted(astx.names_in(e)) if n in bound_in_prefix and n not in keep and scope.n_bindings(n) > 1]
+    if not need:
+        return tm.translate(e)
+    free = sorted({n.id for s in prefix for n in ast.walk(s) if isinstance(n, ast.Name) and isinstance(n.ctx, ast.Load)} - bound_in_prefix - {"self"})
+    env = {}
+    for nm in need:
+        t = _cf.snippet_term(prefix, nm, ["self"] + free) if any(isinstance(n, ast.Name) and n.id == "self" for s in prefix for n in ast.walk(s)) else _cf.snippet_term(prefix, nm, free)
+        names = free
+        for i, fn_ in enumerate(names):
+            t = tm.subst(t, f"${i}", tm.sym(fn_))
+        # attributes of self: the same spelling as a plain translation uses (dotted symbol)
+        t = tm._map_any(t, lambda a_: tm.sym("self." + a_[2]) if a_[0] == "attr" and a_[1] == tm.sym("self") and isinstance(a_[2], str) else None)
+        env[nm] = t
+    return tm.canon(tm.Translator(env).tr(e))
